@@ -2,7 +2,7 @@
    Model: Iso/IsoAccess.v (hand-written, tied by correspondence) threading the interpolator caches of PointIsotherm;
    convert_* are GENERATED from the source. *)
 From Coq Require Import Reals Lra QArith ZArith String List Bool.
-From PG Require Import Lib.Num Lib.Py Gen.UnitsGen1 Units.AdsOracle Gen.UnitsGen2 Iso.IsoState Gen.IsoGen Iso.IsoAccess Iso.Purity.
+From PG Require Import Lib.Num Lib.Py Gen.UnitsGen1 Units.AdsOracle Gen.UnitsGen2 Iso.IsoState Gen.IsoGen Iso.IsoAccess Iso.Purity Gen.PurityGen.
 Import ListNotations.
 Open Scope list_scope.
 
@@ -52,17 +52,19 @@ Theorem accessors_ignore_caches : forall (s s' : iso RNum) b pu pm lim lu lb mu 
 Proof. exact (fun s s' b pu pm lim lu lb mu mb H => conj (iso_pressure_obs RNum s s' b pu pm lim H) (iso_loading_obs RNum s s' b lu lb mu mb lim H)). Qed.
 Print Assumptions accessors_ignore_caches.
 
-(* known finding C04-F1: spreading_pressure_at's range guard reads the cached interpolator *)
-Theorem spreading_pressure_guard_depends_on_history_refuted :
-  let fresh := q_state in
-  let used := res_state QNum (iso_loading_at QNum q_state [3 # 2]%Q (Some "ads"%string) (Some "linear"%string) (@FNone QNum) None None None None None None) in
-  obs QNum used = obs QNum fresh
-  /\ outcome_code (iso_spreading_outcome QNum fresh (1 # 2) (Some "ads"%string) (@FNone QNum) None None None None None None) = None
-  /\ outcome_code (iso_spreading_outcome QNum used (1 # 2) (Some "ads"%string) (@FNone QNum) None None None None None None) = Some CalculationError
-  /\ outcome_code (iso_spreading_outcome QNum fresh (4 # 1) (Some "ads"%string) (@FNone QNum) None None None None None None) = Some ValueError
-  /\ outcome_code (iso_spreading_outcome QNum used (4 # 1) (Some "ads"%string) (@FNone QNum) None None None None None None) = Some CalculationError.
-Proof. exact spreading_guard_depends_on_history_refuted. Qed.
-Print Assumptions spreading_pressure_guard_depends_on_history_refuted.
+(* spreading_pressure_at: the outcome (value / kind of error) after any history = the outcome on an identical fresh object
+   (C04-F1, repaired in /repo: the range guard used to read the cached interpolator) *)
+Theorem spreading_pressure_outcome_is_history_independent : forall (s0 : iso RNum) (acts : list act) p b f pu pm lu lb mu mb,
+  let s := fold_left do_act acts (clear RNum s0) in
+  out_unit (iso_spreading_outcome RNum s p b f pu pm lu lb mu mb) = out_unit (iso_spreading_outcome RNum (clear RNum s) p b f pu pm lu lb mu mb).
+Proof. exact spreading_history_independent_reachable. Qed.
+Print Assumptions spreading_pressure_outcome_is_history_independent.
+
+(* characterisation / IAST / fitting / exporters are not modelled; the source census (generated on every run, 112 functions scanned)
+   shows NO entry point that calls a mutating method on, or assigns into, an isotherm it was given (C04-F2 Whittaker, repaired) *)
+Theorem analyses_never_mutate_their_arguments : mutating_sites = [].
+Proof. exact no_analysis_mutates_its_argument. Qed.
+Print Assumptions analyses_never_mutate_their_arguments.
 
 Example reachable_state_example :
   cache_ok RNum (fold_left do_act [ALoadingAt [1%R] (Some "ads"%string) (Some "linear"%string) (@FNone RNum) None None None None None None;
